@@ -44,6 +44,7 @@ fn eval_inner(t: &Value, env: &Env) -> Felt {
         "masked" => hashes::masked2(&eval(&a[1], env), &eval(&a[2], env)),
         "maskedmany" => hashes::masked_many(&evals(&a[1], env)),
         "mont" => eval(&a[1], env) * hashes::montgomery_r(),
+        "hibits" => eval(&a[1], env) + Felt::TWO.pow(a[2].as_u64().unwrap()),
         other => panic!("unknown term tag {other}"),
     }
 }
